@@ -60,6 +60,7 @@ SENSITIVITY = [  # keep in sync with mutants/c04.json (all KILLED by the quick t
     "CCZ decomposition uses S instead of T",
     "stabilizer state applies CX with control and target exchanged",
     "apply_unitaries forgets to swap the buffer",
+    "CliffordGate._pad_tableau sorts the target axes",
 ]
 
 TOL = 1e-7
@@ -476,7 +477,7 @@ def oracle_decompose(r):
         dd = L.dim(dims)
         _cmp_effect(b, "u", np.asarray(res).reshape(dd, dd), u, None, len(d1), "apply_unitaries(decompose_once)")
     # --- recursive
-    if lvl == "op" and b.ctrl_total >= 3:
+    if lvl == "op" and (b.ctrl_total >= 3 or len(qubits) >= 5):
         lab["rec_skipped_many_controls"] = True  # multi-controlled synthesis is O(n^2) gates and seconds per case
     elif lvl == "op":
         mode = r.get("keep", "full")
@@ -706,8 +707,10 @@ def oracle_act_on(r):
             raise Violation(f"act_on(DensityMatrixSimulationState, {lvl}) differs from sum K rho K^dagger by {e:.3g}\n{_desc(b)}")
         lab["dm_checked"] = True
     # ------------------------------------------------ stabilizer states
-    if all(q.dimension == 2 for q in reg) and len(reg) <= 5:
-        lab.update(_stabilizer(b, val, qubits, lvl, reg, axes, u, r))
+    # (stabilizer states are qubit-only: idle qutrit wires are left out, the drawn order of the rest is kept)
+    reg2 = [q for q in reg if q.dimension == 2]
+    if all(q.dimension == 2 for q in qubits) and len(reg2) <= 5:
+        lab.update(_stabilizer(b, val, qubits, lvl, reg2, [reg2.index(q) for q in qubits], u, r))
     lab["nontrivial"] = bool(b.applied) or lab["reg_permuted"]
     return lab
 
@@ -1055,7 +1058,7 @@ SUBCHECKS = [
              quick=4000, thorough=120000, shards_quick=4, shards_thorough=16, essential={"odd_layout": 0.6, "kernel": 0.6}),
     SubCheck("decompose", _decomp_case(_DECOMP), oracle_decompose, quick=4000, thorough=100000, shards_quick=8, shards_thorough=16,
              essential={"once_checked": 0.5, "odd_qubit_order": 0.3}),
-    SubCheck("decompose_wide", _decomp_case(_ALL), oracle_decompose, quick=1200, thorough=40000, shards_quick=2, shards_thorough=8),
+    SubCheck("decompose_wide", _decomp_case(_ALL), oracle_decompose, quick=1200, thorough=40000, shards_quick=4, shards_thorough=8),
     SubCheck("channel", _channel_case(_ALL), oracle_channel, quick=4000, thorough=100000, shards_quick=4, shards_thorough=16,
              essential={"apply_channel_checked": 0.6, "ref_mixture": 0.05, "ref_kraus_only": 0.05}),
     SubCheck("act_on", _acton_case(_ALL), oracle_act_on, quick=4000, thorough=100000, shards_quick=8, shards_thorough=16,
